@@ -33,6 +33,9 @@ c never depends on COMMON layout/padding).
 	common/enrange/ebb1,ebb2,toallevents,levelE,chdspin
 	ebb1=e1
 	ebb2=e2
+c the reference never writes toallevents for modes 9, 11, 12; start from
+c the natural default (as for ebb1/ebb2, which its dialog initialises)
+	toallevents=1.
 	return
 	end
 
